@@ -104,6 +104,18 @@ fn shrink_ex(e: &Ex) -> Vec<Ex> {
 }
 
 pub fn minimise(script: &Script, v: &Violation, budget: usize) -> (Script, Violation) {
+    if let Some(case) = &script.alloc {
+        let small = crate::alloc::minimise(case);
+        let s2 = Script {
+            cfg: script.cfg.clone(),
+            stmts: Vec::new(),
+            alloc: Some(small),
+        };
+        return match still_fails(&s2, &class_of(v)) {
+            Some(nv) => (s2, nv),
+            None => (script.clone(), v.clone()),
+        };
+    }
     let class = class_of(v);
     let mut best = script.clone();
     // nothing after the failing statement matters
